@@ -510,7 +510,7 @@ func genValues(rng *rand.Rand, t reflect.Type, n int) []reflect.Value {
 	out := make([]reflect.Value, n)
 	for i := range out {
 		p := reflect.New(t)
-		if rng.Intn(15) != 0 { // sometimes the all-zero record
+		if rng.Intn(8) != 0 { // sometimes the all-zero record (nothing taken from its bank)
 			genValue(rng, p.Elem(), 1)
 		}
 		if rng.Intn(3) == 0 {
